@@ -765,6 +765,19 @@ def absval_norm(o):
     return a
 
 
+def absval_canon(o):
+    """absval_norm with SET OF members sorted: the abstract value of a SET OF is a multiset."""
+    return _canon(absval_norm(o))
+
+
+def _canon(a):
+    if isinstance(a, tuple):
+        if len(a) == 3 and a[0] == 'SetOf' and isinstance(a[2], tuple):
+            return (a[0], a[1], tuple(sorted((_canon(x) for x in a[2]), key=repr)))
+        return tuple(_canon(x) for x in a)
+    return a
+
+
 def _safe_isvalue(o):
     try:
         return bool(o.isValue)
